@@ -47,7 +47,7 @@ def make_fa(case):
         undo_ip_anon=undo,
         salt=case["salt"],
         sensitive_words=list(WORDS) if words else None,
-        as_numbers=list(ASNS) if asn else None,
+        as_numbers=list(case.get("asns") or ASNS) if asn else None,
         preserve_suffix_v4=case.get("B", 8),
         preserve_suffix_v6=case.get("B", 8),
     )
@@ -119,7 +119,7 @@ def check_long(case, ev):
             x = (case["start4"] + i * (case["stride"] | 1)) & 0xFFFFFFFF
             lines.append(" ip address %d.%d.%d.%d 255.255.255.0" % (x >> 24, (x >> 16) & 255, (x >> 8) & 255, x & 255))
         if i < n6:
-            y = (case["start6"] + i * ((case["stride"] << 70) | 1)) & ((1 << 128) - 1)
+            y = (case["start6"] + (i + 1) * ((case["stride"] << 100) | (case["start4"] << 40) | 0x9E3779B97F4A7C15)) & ((1 << 128) - 1)  # spread over the whole space
             lines.append("ipv6 address %x:%x:%x:%x:%x:%x:%x:%x/64" % tuple((y >> (16 * (7 - g))) & 0xFFFF for g in range(8)))
         if i % 50 == 0:
             lines.append("username u%d password Pw%dxQ" % (i, i))
@@ -206,7 +206,13 @@ def _case(draw):
         feats[0] = True
     if gen == "addr" and draw(st.integers(0, 3)):
         feats[1] = True
-    return {"line": line, "salt": draw(_salt), "features": feats, "undo": draw(st.integers(0, 5)) == 0, "B": draw(st.sampled_from([8, 8, 0, 32])), "gen": gen}
+    asns = None
+    if draw(st.integers(0, 4)) == 0:
+        # what `-n "65000, 65001,065002"` becomes after splitting on commas
+        asns = draw(st.sampled_from([["65000", " 65001"], ["065002", "65002"], ["123", "123"], ["7 ", "65001"], ["00", "0"]]))
+        line = line + " " + draw(st.sampled_from(asns)).strip() + " " + draw(st.sampled_from(["65001", "065002", "0", "7"]))
+        feats[3] = True
+    return {"line": line, "salt": draw(_salt), "features": feats, "undo": draw(st.integers(0, 5)) == 0, "B": draw(st.sampled_from([8, 8, 0, 32])), "gen": gen, "asns": asns}
 
 
 @st.composite
@@ -237,7 +243,7 @@ def plan(tier):
     tasks = [
         Task("lines", t_lines, shards=8 if q else 16, n=1500 if q else 150000),
         Task("files", t_files, shards=2 if q else 16, n=150 if q else 5000),
-        Task("long", t_long, shards=2 if q else 8, n4=6000 if q else 40000, n6=1200 if q else 6000),
+        Task("long", t_long, shards=2 if q else 8, n4=6000 if q else 40000, n6=2000 if q else 8000),
     ]
     if not q:
         from ..fuzz import c14_fuzz
